@@ -165,7 +165,20 @@ func slowReaders(run *lib.Run, hb *lib.Heartbeat) {
 		}
 		close(release)
 		wg.Wait()
+		// many mid-sized bodies on eight connections at once, each connection fetching one after
+		// the other
+		for k := 0; k < 8; k++ {
+			wg.Add(1)
+			go func(k int) {
+				for j := 0; j < 40; j++ {
+					wg.Add(1)
+					fetch(5000+mi*1000+k*50+j, 256<<10+j*1031, false)
+				}
+				wg.Done()
+			}(k)
+		}
+		wg.Wait()
 		p.Stop()
 	}
-	run.Floor("slow_reader_bodies_verified", 60)
+	run.Floor("slow_reader_bodies_verified", 600)
 }
